@@ -30,6 +30,7 @@ CONFIGS = {
         dict(name="statements", MaxItems=5, MaxDepth=3, Reps="{1}", FVariants='{"plain"}', SVariants=ALLS, CVariants=ALLC, Allowed=ALLK, layouts=[1]),
         dict(name="depth", MaxItems=9, MaxDepth=4, Reps="{1}", FVariants='{"plain"}', SVariants='{"plain"}', CVariants='{"if"}', Allowed='{"F","X","S"}', layouts=[0]),
         dict(name="mixed", MaxItems=6, MaxDepth=3, Reps="{2}", FVariants='{"plain", "arrow", "lineabove"}', SVariants='{"plain"}', CVariants='{"try"}', Allowed='{"F","K","C","E","X","S","R"}', layouts=[2]),
+        dict(name="wrapped", MaxItems=8, MaxDepth=3, Reps="{1}", FVariants='{"plain", "prefix"}', SVariants='{"plain"}', CVariants='{"if"}', Allowed='{"F","K","W","X","S"}', layouts=[0]),
         dict(name="thresholds", MaxItems=4, MaxDepth=2, Reps="{1, 13, 14, 15, 16, 28, 29, 30, 31, 58, 59, 60, 61, 75}", FVariants='{"plain"}', SVariants='{"plain"}', CVariants='{"if"}', Allowed='{"F","X","S"}', layouts=[0]),
     ],
     "thorough": [
@@ -37,13 +38,14 @@ CONFIGS = {
         dict(name="statements", MaxItems=6, MaxDepth=3, Reps="{1}", FVariants='{"plain", "prefix"}', SVariants=ALLS, CVariants=ALLC, Allowed=ALLK, layouts=[1, 2]),
         dict(name="depth", MaxItems=11, MaxDepth=5, Reps="{1}", FVariants='{"plain"}', SVariants='{"plain"}', CVariants='{"if"}', Allowed='{"F","X","S"}', layouts=[0, 2]),
         dict(name="mixed", MaxItems=7, MaxDepth=3, Reps="{2}", FVariants='{"plain", "arrow", "lineabove", "prefix"}', SVariants='{"plain"}', CVariants='{"try", "loop"}', Allowed='{"F","K","C","E","X","S","R"}', layouts=[1, 2]),
+        dict(name="wrapped", MaxItems=9, MaxDepth=4, Reps="{1, 2}", FVariants='{"plain", "prefix", "multi"}', SVariants='{"plain"}', CVariants='{"if"}', Allowed='{"F","K","W","X","S"}', layouts=[0, 1]),
         dict(name="thresholds", MaxItems=5, MaxDepth=2, Reps="{1, 2, 13, 14, 15, 16, 28, 29, 30, 31, 58, 59, 60, 61, 75}", FVariants='{"plain", "multi"}', SVariants='{"plain"}', CVariants='{"if"}', Allowed='{"F","X","S"}', layouts=[0]),
     ],
 }
 
 
 def show(prog) -> str:
-    return " ".join((it["k"] + (":" + it["v"] if it["k"] in "FCE" and it["v"] not in ("plain", "if") else "") + (({"strdelim": "*", "trailing": "~", "inline": "^"}.get(it["v"], "")) + str(it["n"]) if it["k"] == "S" else "")) for it in prog)
+    return " ".join((it["k"] + (":" + it["v"] if it["k"] in "FCEK" and it["v"] not in ("plain", "if") else "") + (({"strdelim": "*", "trailing": "~", "inline": "^"}.get(it["v"], "")) + str(it["n"]) if it["k"] == "S" else "")) for it in prog)
 
 
 def expected_for(prog, exp, lang, layout):
